@@ -45,6 +45,27 @@ def handle (j : Json) : Except String Json := do
   if (j.getObjValAs? Bool "bad").toOption.getD false then
     let s := session true os .failed .normal { exited := false, termDelay := some 0 }
     return Json.mkObj [("raised_on_enter", Json.bool s.raisedOnEnter), ("child", Json.null)]
+  -- an explicit child (the virtual-time exit-trace suite): every field of `ChildSpec` and `OS` is given
+  if let .ok sp := j.getObjVal? "spec" then
+    let p ← getPath j
+    let optNat (k : String) : Option Nat := match sp.getObjVal? k with
+      | .ok .null => none
+      | .ok v => v.getNat?.toOption
+      | .error _ => none
+    let c : ChildSpec := {
+      exited := (sp.getObjValAs? Bool "exited").toOption.getD false,
+      termDelay := optNat "term_delay",
+      selfExit := optNat "self_exit",
+      stdoutOpen := (sp.getObjValAs? Bool "stdout_open").toOption.getD true,
+      stdoutHeld := (sp.getObjValAs? Bool "stdout_held").toOption.getD false }
+    let os2 : OS := { killDelay := (optNat "kill_delay").getD 1000000, waitReaps := true }
+    match leave Design.sound os2 p c { backlog := 0, capacity := 131072 } with
+    | none => return Json.mkObj [("returns", Json.bool false)]
+    | some t =>
+      return Json.mkObj [("returns", Json.bool true), ("child", Json.str (stateName t.child)),
+        ("duration", toJson t.duration),
+        ("signals", Json.arr (t.signals.map (fun (at_, sg) =>
+          Json.arr #[toJson at_, Json.str (match sg with | .term => "term" | .kill => "kill")])).toArray)]
   let b ← getBehaviour j
   let p ← getPath j
   if (← j.getObjValAs? String "moment") == "entry" then
